@@ -159,6 +159,13 @@ func runTrace(env *core.Env, t Trace, verbose bool) bool {
 			ok = s.obs.RawShow[a.Text] != o.obs.RawShow[a.Text]
 		case "read_fails":
 			ok = s.obs.Fail != ""
+		case "body_of_title_is_not": // Text = title NUL body: the item with that title exists and its body is something else
+			parts := strings.SplitN(a.Text, "\x00", 2)
+			for _, sh := range s.obs.Shows {
+				if sh.Title == parts[0] && sh.Body != parts[1] {
+					ok = true
+				}
+			}
 		default:
 			env.HarnessError("unknown assert kind %q", a.Kind)
 		}
@@ -170,14 +177,27 @@ func runTrace(env *core.Env, t Trace, verbose bool) bool {
 	return all
 }
 
-// confirm re-executes a trace 5x with spawned processes; a violation is believed only if it fails every time.
-func confirm(env *core.Env, t Trace) bool {
-	for i := 0; i < 5; i++ {
-		if !runTrace(env, t, false) {
-			return false
+// confirm re-executes a trace with spawned processes. Normally it must fail 5 times out of 5. Every spawned run in
+// which all facts of the trace hold is by itself a demonstration on the real binaries, so a trace that fails in some
+// runs and not in others (what the commands do varies from run to run on the same store - e.g. with Go's map iteration
+// order) is believed once it has failed 5 times within at most 40 runs; none within the first 12 ends the attempt.
+func confirm(env *core.Env, t Trace) (ok bool, note string) {
+	repro, runs := 0, 0
+	for runs < 40 && repro < 5 {
+		runs++
+		if runTrace(env, t, false) {
+			repro++
+		} else if repro == 0 && runs >= 12 {
+			return false, ""
 		}
 	}
-	return true
+	if repro < 5 {
+		return false, ""
+	}
+	if runs > repro {
+		note = fmt.Sprintf(" [reproduced in %d of %d runs on the same store with the same commands: the outcome varies from run to run]", repro, runs)
+	}
+	return true, note
 }
 
 var confirmMu = make(chan struct{}, 1)
@@ -200,7 +220,8 @@ func report(env *core.Env, sig, detail string, t Trace) {
 	if env.ViolationSeen(sig) {
 		return
 	}
-	if !confirm(env, t) {
+	ok, note := confirm(env, t)
+	if !ok {
 		unconfMu.Lock()
 		first := !unconfSeen[sig]
 		unconfSeen[sig] = true
@@ -211,7 +232,7 @@ func report(env *core.Env, sig, detail string, t Trace) {
 		}
 		return
 	}
-	env.Violation(sig, detail, t)
+	env.Violation(sig, detail+note, t)
 }
 
 func GenericReplay(env *core.Env, raw json.RawMessage) bool {
